@@ -28,7 +28,7 @@ def plan(tier):
         for nb in counts:
             for d in ((0,) if c == 3 else (0, 1)):
                 deep = (nb == L + 1 and c != 3)
-                nr = FULL[c] if deep else ((1 if tier == 'quick' else 5) if c == 3 else 2)     # Mantis full-depth inverse: mantis:swapinv obligations
+                nr = FULL[c] if deep else ((1 if (tier == 'quick' or nb > L) else 5) if c == 3 else 2)     # Mantis full-depth inverse: mantis:swapinv obligations
                 qs.append(Q('par-rt:%s:n%d:%s:r%d' % (nm, nb, 'dec.enc' if d == 0 else 'enc.dec', nr), 'c07.c',
                             'parallel %s on %d blocks through the real driver and the %s back end, arbitrary %d-round schedule, arbitrary data: returns the original blocks' % ('decrypt(encrypt(m))' if d == 0 else 'encrypt(decrypt(m))', nb, nm, nr),
                             defs={'CIPHER': c, 'VEC': v, 'OB_RT': 1, 'NBLK': nb, 'DIR': d, 'NR': nr}, ll=ll, timeout=3600, fsarray=1300, sanitize=True))
